@@ -28,3 +28,11 @@ for tone in (-40000, -40, 35, 140, 300, 13000, 40000):
                           desc='OPN2::noteOn with arbitrary timbre at tone %d (every value of the exp enclosure): register indices in range, octave/multiplier search terminates within 32 iterations' % tone,
                           bounds='tone %d; tones between the listed ones share their exp enclosures; finite results above 1e11 are outside the bound' % tone,
                           stubs=PLAYER_STUBS + ['exp(): enclosure stub, +inf above 709.79']))
+
+UFT = dict(INIT_UNWIND)
+UFT.update({'_ZL5setup': 40})
+for m, nm in ((0, 'generic'), (1, 'native'), (2, 'dmx'), (3, 'apogee'), (4, 'w9x')):
+    OBLIGATIONS.append(Ob('C02.touch.' + nm, 'C02', 'ir/c11_touch.cpp', engine='ir', entry='harness_safe', defines=['MODEL=%d' % m],
+                          unwind=20, unwind_funcs=UFT, repo_tus=PLAYER_TUS, ir_opts=player_ir_opts(), timeout={'quick': 600, 'thorough': 1800},
+                          desc='OPN2::touchNote (%s model) with velocity, channel volume, expression and brightness over the whole uint8 range, any master volume 0..127, modulator scaling on/off: table and register indices in range' % nm,
+                          bounds='all uint8 controller values (what opn2_rt_controllerChange and a hostile MIDI file can store)', stubs=PLAYER_STUBS))
